@@ -49,6 +49,9 @@ C["C19"] = dict(
 C["C18"] = dict(
   text="Lean 4 theorems over the stream state machine of Env/OutputStream (initialisation from NO_COLOR, TERM and tty detection; --color, --terminal, --quiet) for every configuration and every list of writes: --quiet leaves standard error empty and never changes standard output; standard output carries exactly the writes addressed to it; on a non-terminal standard output without --color always no escape sequence is emitted for escape-free data (also under --terminal); exit status 0 on success/help/version and 1 on every failure including usage errors. Correspondence: complete enumeration on the real binary with pipes of 11 scenarios x success/failure x --quiet x --color x --terminal x {NO_COLOR, TERM=dumb, TERM=xterm}: stdout compared byte-for-byte with the expected payload (-o - vs the file written without it, one magnet line, one JSON line, peer lines from a loopback tracker), stderr emptiness and styling against the model's stream state, exit status.",
   note="Trusted: Lean kernel; tty-only behaviour (progress bars) not observable through pipes (partial); exhaustive enumeration ties the model to the code.")
+C["C09"] = dict(
+  text="Lean 4 theorems over an effect model of create (the file system is an arbitrary function from paths to absent/file/directory; one guarded write after all checks, in Create::run's order) for every state, request and fault point: without --force an existing output leaves the whole file system unchanged and the command fails; --dry-run changes nothing; every failed run leaves no trace; success writes exactly the torrent bytes at the documented path (target, or <name>.torrent inside a directory target) and nothing else changes - in particular the input; standard output as target never changes the disk. The finite configuration space (--force x --dry-run x 7 output kinds x pre-existing state x input shape x --name x 9 failure causes incl. /proc/self/mem read errors and /dev/full) is enumerated completely on the real binary every run with whole-sandbox snapshots and input mtimes; verify/show/link frames.",
+  note="Trusted: Lean kernel; kernel file semantics observed not modelled; faults after open not injectable (partial); exhaustive enumeration ties the model to the code.")
 
 
 def main():
